@@ -117,10 +117,106 @@ static char *file_body(size_t *n) {
     return b;
 }
 
+
+/* ---- arguments that point into the table's own storage: the first match in lookup direction,
+ * through getnext(newmem = false): name / data are the table's own blocks */
+static bool own_node(const char *name, qlisttbl_obj_t *out) {
+    qlisttbl_obj_t o; memset(&o, 0, sizeof(o));
+    if (!T->getnext(T, &o, name, false)) return false;
+    *out = o;
+    return true;
+}
+
+/* ---- `debug`: qlisttbl_debug() into a memory stream ------------------------------------------ */
+static void do_debug(void) {
+    char *buf = NULL; size_t n = 0;
+    FILE *f = open_memstream(&buf, &n);
+    errno = 0;
+    bool r = T->debug(T, f);
+    fclose(f);
+    printf("debug %d ", (int) r); puthex(stdout, buf, n);
+    free(buf);
+}
+
+/* ---- `hugeval <extra>` (thorough tier, no model line): one value of 2^32 + extra bytes between
+ * two small entries; every size the API reports and spot-checked bytes are compared with what was
+ * put; prints `ok` or the first mismatch */
+static inline unsigned char hv_at(size_t i) { uint64_t v = ((uint64_t) (i >> 3) + 1) * 0x9E3779B97F4A7C15ULL; return (unsigned char) (v >> ((i & 7) * 8)); }
+static void hv_fill(unsigned char *b, size_t n) {
+    size_t w = 0;
+    for (; w + 8 <= n; w += 8) { uint64_t v = ((uint64_t) (w >> 3) + 1) * 0x9E3779B97F4A7C15ULL; memcpy(b + w, &v, 8); }
+    for (; w < n; w++) b[w] = hv_at(w);
+}
+static bool hv_spots(const unsigned char *p, size_t n) {
+    size_t at[10] = {0, 1, 4095, (size_t) 1 << 31, ((size_t) 1 << 32) - 1, (size_t) 1 << 32, ((size_t) 1 << 32) + 1, n / 2, n - 2, n - 1};
+    for (int k = 0; k < 10; k++) if (at[k] < n && p[at[k]] != hv_at(at[k])) return false;
+    for (size_t i = n > (1u << 20) ? n - (1u << 20) : 0; i < n; i++) if (p[i] != hv_at(i)) return false;
+    return true;
+}
+static void do_hugeval(size_t extra) {
+    size_t N = ((size_t) 1 << 32) + extra, sz;
+    long before = aw_live;
+    unsigned char *buf = malloc(N);
+    qlisttbl_t *t = qlisttbl(QLISTTBL_UNIQUE);
+    if (buf == NULL || t == NULL) { printf("no-memory"); free(buf); if (t) t->free(t); return; }
+    hv_fill(buf, N);
+    const char *msg = NULL;
+#define HV_FAIL(m) do { msg = (m); goto out; } while (0)
+    if (!t->put(t, "a", "small-a", 8) || !t->put(t, "h", buf, N) || !t->put(t, "z", "small-z", 8)) HV_FAIL("put failed");
+    if (t->size(t) != 3) HV_FAIL("size after three puts is not 3");
+    sz = 0; unsigned char *p = t->get(t, "h", &sz, false);
+    if (p == NULL || p == buf) HV_FAIL("get(newmem=false) of the huge value");
+    if (sz != N) HV_FAIL("get(newmem=false) reports another size than was put");
+    if (!hv_spots(p, N)) HV_FAIL("bytes of the stored huge value differ from what was put");
+    sz = 0; p = t->get(t, "h", &sz, true);
+    if (p == NULL) HV_FAIL("get(newmem=true) of the huge value");
+    if (sz != N || !hv_spots(p, N)) { vf_free(p); HV_FAIL("copy returned by get(newmem=true) has another size / content"); }
+    vf_free(p);
+    { size_t n = 0; qlisttbl_data_t *objs = t->getmulti(t, "h", false, &n);
+      if (objs == NULL || n != 1) { if (objs) t->freemulti(objs); HV_FAIL("getmulti of the huge value"); }
+      bool good = objs[0].size == N && hv_spots(objs[0].data, N);
+      t->freemulti(objs);
+      if (!good) HV_FAIL("getmulti reports another size / content than was put"); }
+    { qlisttbl_obj_t o; memset(&o, 0, sizeof(o)); int seen = 0;
+      while (t->getnext(t, &o, NULL, false)) {
+          size_t want = !strcmp(o.name, "h") ? N : 8;
+          if (o.size != want) HV_FAIL("getnext reports another size than was put");
+          if (!strcmp(o.name, "h") && !hv_spots(o.data, N)) HV_FAIL("getnext data of the huge value differs");
+          seen++;
+      }
+      if (seen != 3) HV_FAIL("walk did not return three entries"); }
+    sz = 0; p = t->get(t, "a", &sz, false); if (p == NULL || sz != 8 || memcmp(p, "small-a", 8)) HV_FAIL("neighbour a damaged");
+    sz = 0; p = t->get(t, "z", &sz, false); if (p == NULL || sz != 8 || memcmp(p, "small-z", 8)) HV_FAIL("neighbour z damaged");
+    if (!t->put(t, "h", "tiny", 5)) HV_FAIL("replace by a small value failed");
+    sz = 0; p = t->get(t, "h", &sz, false); if (p == NULL || sz != 5 || memcmp(p, "tiny", 5)) HV_FAIL("small value after replace");
+    if (t->remove(t, "a") != 1 || t->size(t) != 2) HV_FAIL("remove / size after replace");
+out:
+    t->free(t);
+    free(buf);
+    if (msg == NULL && aw_live != before) msg = "blocks still allocated after the table was released";
+    if (msg) printf("mismatch: %s", msg); else printf("ok");
+}
+
 static void put_result(bool r, int e) {
     fresh = false; if (OPT[0]) live = false;
     printf("allocs=%ld ", aw_end());
     if (r) printf("true"); else printf("false %s", errname(e));
+}
+
+/* a second thread tries the container's mutex: 1 = busy */
+#include <pthread.h>
+#include "qinternal.h"
+static void *probe_thread(void *m) {
+    pthread_mutex_t *mx = &((qmutex_t *) m)->mutex;
+    int r = pthread_mutex_trylock(mx);
+    if (r == 0) pthread_mutex_unlock(mx);
+    return (void *) (intptr_t) (r != 0);
+}
+static int probe_busy(void *qmutex) {
+    pthread_t t; void *res = NULL;
+    if (pthread_create(&t, NULL, probe_thread, qmutex) != 0) return -1;
+    pthread_join(t, &res);
+    return (int) (intptr_t) res;
 }
 
 /* per-operation watchdog: an endless loop inside the library is a dead harness, not a stuck check */
@@ -146,13 +242,13 @@ int main(void) {
     while ((len = getline(&line, &cap, stdin)) > 0) {
         char *w[MAXW]; int nw = split_words(line, w);
         if (nw == 0) continue;
-        alarm(8);
+        alarm(strcmp(w[0], "hugeval") ? 8 : 600);
         const char *op = w[0];
         bytes_t a = {0, 0}, d = {0, 0};
         char *name = NULL;
         bool keyed = !strcmp(op, "put") || !strcmp(op, "putstr") || !strcmp(op, "putstrf") || !strcmp(op, "putint") || !strcmp(op, "get")
                   || !strcmp(op, "getstr") || !strcmp(op, "getint") || !strcmp(op, "getmulti") || !strcmp(op, "rm")
-                  || !strcmp(op, "nextn") || !strcmp(op, "walkn");
+                  || !strcmp(op, "nextn") || !strcmp(op, "walkn") || !strcmp(op, "putalias") || !strcmp(op, "putkeyalias");
         if (keyed) {
             if (nw < 3 || !unhex(w[1], &a)) { printf("bad-op\n"); continue; }
             name = cstr_exact(&a);
@@ -356,6 +452,39 @@ int main(void) {
             ssize_t n = T->load(T, path, (char) sp.p[0], enc);
             printf("%s loaded %zd", r ? "saved" : "false", n);
             free(sp.p);
+        } else if (!strcmp(op, "putalias") && nw == 6) {
+            /* put / putstr whose DATA argument points into the stored value of the first match of the
+             * key (pointer from get(newmem=false), modes 0/1, or getnext(newmem=false), modes 2/3);
+             * a UNIQUE table removes that very entry during the call */
+            int mode = w[3][0] - '0'; size_t off = strtoull(w[4], NULL, 10), ln = strtoull(w[5], NULL, 10);
+            size_t sz = 0; unsigned char *p = NULL;
+            if (mode < 2) p = T->get(T, name, &sz, false);
+            else { qlisttbl_obj_t o; if (own_node(name, &o)) { p = o.data; sz = o.size; } }
+            bool str = mode & 1;
+            if (p == NULL || off > sz || (!str && off + ln > sz) || (str && !memchr(p + off, 0, sz - off))) printf("skip");
+            else {
+                errno = 0;
+                aw_begin();
+                bool r = str ? T->putstr(T, name, (char *) p + off) : T->put(T, name, p + off, ln);
+                int e = errno;
+                put_result(r, e);
+            }
+        } else if (!strcmp(op, "putkeyalias") && nw == 5 && unhex(w[4], &d)) {
+            /* put whose NAME argument points into the stored name of the first match of the key */
+            size_t off = strtoull(w[3], NULL, 10);
+            qlisttbl_obj_t o;
+            if (!own_node(name, &o) || off > strlen(o.name)) printf("skip");
+            else {
+                errno = 0;
+                aw_begin();
+                bool r = T->put(T, o.name + off, d.p, d.n);
+                int e = errno;
+                put_result(r, e);
+            }
+        } else if (!strcmp(op, "debug") && nw == 1) {
+            do_debug();
+        } else if (!strcmp(op, "hugeval") && nw == 2) {
+            do_hugeval((size_t) strtoull(w[1], NULL, 10));
         } else if (!strcmp(op, "inv") && nw == 1) {
             /* calls with invalid arguments on the CURRENT table: result:errno per call; nothing may
              * change (the dump follows). First the calls documented (or coded) to fail with EINVAL,
@@ -397,13 +526,19 @@ int main(void) {
             printf(" gmnull=%zu:%s", n, objs ? "0" : errname(errno));
             if (objs) T->freemulti(objs);
         } else if (!strcmp(op, "lock") && nw == 1) {
-            /* lock / unlock / size through the method pointers (recursive when thread-safe) */
+            /* lock / unlock / size through the method pointers. On a THREADSAFE table: a nested public
+             * call (it takes the lock again) inside lock() ... unlock(); ANOTHER thread then finds the
+             * mutex busy (the outer lock is still in force) and free after unlock() */
             T->lock(T);
-            T->lock(T);
+            errno = 0;
+            void *p = T->get(T, "lock-probe-absent-key", NULL, false);
+            int e = errno;
             size_t n1 = T->size(T);
+            int held = T->qmutex ? probe_busy(T->qmutex) : -1;
             T->unlock(T);
-            T->unlock(T);
-            printf("locked size %zu", n1);
+            int after = T->qmutex ? probe_busy(T->qmutex) : -1;
+            printf("locked size %zu nested=%s", n1, p ? "found" : errname(e));
+            if (T->qmutex) printf(" held=%d after=%d", held, after); else printf(" nolock");
         } else if (!strcmp(op, "end") && nw == 1) {
             /* C11: once the container is released every block it allocated is freed;
              * C12: the copies handed out must have survived everything including the release */
